@@ -32,6 +32,8 @@ def gen_history(rng: random.Random, n_lo=5, n_hi=14, props=True, fails=True, gc=
         elif r < 0.52:
             op = {"kind": "delete_file", "tag": tag, "k": rng.randint(0, 5), "with_append": rng.random() < 0.35,
                   "slash": rng.random() < 0.6}
+            if rng.random() < 0.35:
+                op["k2"] = rng.randint(0, 5)       # one call naming two files (often of two manifests)
         elif r < 0.62:
             op = {"kind": "expire", "tag": tag, "k": rng.randint(0, 7), "delta": rng.choice([0, 1, -1]),
                   "with_append": rng.random() < 0.35}
